@@ -171,7 +171,16 @@ func runC15(R *vlib.Out) {
 		prefixes = append(prefixes, []string{a})
 		for _, b := range evs {
 			prefixes = append(prefixes, []string{a, b})
+			if *vlib.Tier == "thorough" {
+				for _, c := range evs {
+					prefixes = append(prefixes, []string{a, b, c})
+				}
+			}
 		}
+	}
+	closeTimeouts := []int{0, 1000, 10000}
+	if *vlib.Tier == "thorough" {
+		closeTimeouts = []int{0, 1, 100, 1000, 2500, 10000, 60000}
 	}
 	unit := 0
 	try := func(c c15Case) bool {
@@ -199,7 +208,7 @@ func runC15(R *vlib.Out) {
 	}
 	defer runC15Sched(R)
 	for _, role := range []string{"acc", "ini"} {
-		for _, ct := range []int{0, 1000, 10000} {
+		for _, ct := range closeTimeouts {
 			for _, p := range prefixes {
 				if !try(c15Case{Role: role, CloseMs: ct, Prefix: p, Ending: "peer-logout", HB: 30}) {
 					return
